@@ -111,6 +111,9 @@ CORRS = [
 ]
 
 
+_CORR_RT = next(c for c in CORRS if c.op == "bind.roundtrip")
+
+
 # ------------------------------------------------------------------ oracle
 def oracle_roundtrip(a):
     u = uni_of(a)
@@ -286,6 +289,15 @@ def excluded_region(desc, value):
 
 
 def gen_oracle(rng, tier):
+    """F1 instances as generated, and every fourth one pushed into the excluded regions as well (a
+    failure there must be the one the region describes, `covered_oracle`)"""
+    for n, a in enumerate(_gen_f1(rng, tier)):
+        yield a
+        if n % 4 == 3:
+            yield {**a, "value": spoil_F1(rng, a["value"])}
+
+
+def _gen_f1(rng, tier):
     for _ in range(n_cases(tier, 150, 900)):
         u, desc, ctx = new_universe(rng, F1_FEATURES)
         for _ in range(6):
@@ -315,11 +327,56 @@ def adapt_disagreement(d):
     return {**a, "clazz": a.get("clazz", "Root"), "_model_roundtrips": True}
 
 
+def as_unchanged_code(a):
+    """A listed finding or an out-of-claim region describes what the UNCHANGED code does on certain
+    instances, and the model reproduces that behaviour.  A failing instance is attributed to its region
+    only while the implementation still answers on THIS instance, in all four writer x handler
+    combinations, what the model answers (`cmp_roundtrip`: exact up to the names of generated
+    prefixes); another kind of failure inside the region is reported.  None: the model does not cover
+    the instance (unsupported shape, no driver): the input predicate alone decides."""
+    from framework import behaves_as_modelled
+
+    if _xsi_type_clark(a["value"]):
+        return None
+    u = uni_of(a)
+    try:
+        value = u.to_val(u.from_val(a["value"]))   # what the instance really holds (init=False fields)
+    except Exception:  # noqa: BLE001
+        return None
+    base = {"ctx": a.get("ctx") or u.export_ctx(), "value": value, "clazz": a.get("clazz", "Root"), "config": {},
+            "desc": a["desc"], "_uni": a["_uni"], "ignore_default_attributes": a.get("ignore_default_attributes", False),
+            "indent": False, "xml_declaration": True, "writer": "native", "handler": "native"}
+    variants = [{**base, "writer": w, "handler": h} for w in ("native", "lxml") for h in ("native", "lxml")]
+    return behaves_as_modelled(_CORR_RT, base, variants)
+
+
+def _xsi_type_clark(v):
+    """the one shape on which the model is known not to follow the code: an `xsi:type` key in an
+    `Attributes` map or among the attributes of a generic element whose value is a Clark name or looks
+    like `prefix:local`.  The parser reads it as a QName: the writers turn a Clark name into a prefixed
+    name and bind that prefix (`xs` or `ns<k>`), and a literal prefix may happen to be one they bind; the
+    abstract writer of the model binds other names (`q<k>`), so its parser cannot resolve what the code
+    resolves (prefix allocation is the writer layer, C03)"""
+    if isinstance(v, dict):
+        for key in ("attrs",):
+            if key in v and isinstance(v[key], list) and any(
+                    isinstance(kv, list) and len(kv) == 2 and kv[0] == "{http://www.w3.org/2001/XMLSchema-instance}type"
+                    and isinstance(kv[1], str) and (kv[1].startswith("{") or ":" in kv[1]) for kv in v[key]):
+                return True
+        return any(_xsi_type_clark(x) for x in v.values())
+    if isinstance(v, list):
+        return any(_xsi_type_clark(x) for x in v)
+    return False
+
+
 def covered_oracle(a, msg):
     if a.get("_model_roundtrips"):
         return None  # the model of the unchanged code returns the object: no listed defect applies
     # (namespace chains are no excuse any more: repair c01g-01)
-    return excluded_region(a["desc"], a["value"])
+    r = excluded_region(a["desc"], a["value"])
+    if r and as_unchanged_code(a) is False:
+        return None  # inside a listed region, but not the behaviour of the unchanged code: report it
+    return r
 
 
 # ------------------------------------------------------------------ c01.valF1: the value hypothesis on real instances
@@ -329,7 +386,7 @@ def gen_valF1(rng, tier):
         _UNIS[u.modname] = u
         yield {"ctx": u.export_ctx(), "value": value, "clazz": "Root", "desc": desc, "_uni": u.modname}
     n = 0
-    for a in gen_oracle(rng, tier):
+    for a in _gen_f1(rng, tier):
         yield {k: a[k] for k in ("ctx", "value", "clazz", "desc", "_uni")}
         n += 1
         if n % 3 == 0:
@@ -386,9 +443,16 @@ def gen_wide(rng, tier):
     for desc, value in W.CORPUS:
         u = B.Universe(desc)
         _UNIS[u.modname] = u
-        yield {"ctx": u.export_ctx(), "value": value, "clazz": "Root", "desc": desc, "_uni": u.modname, "feat": W.FEAT}
-    for _ in range(n_cases(tier, 120, 800)):
-        u, desc, ctx = new_universe(rng, W.WIDE_FEATURES)
+        ctx = u.export_ctx()
+        yield {"ctx": ctx, "value": value, "clazz": "Root", "desc": desc, "_uni": u.modname, "feat": W.FEAT, "frag": "F9"}
+        for name, feat in sorted(W.FRAGMENTS.items()):
+            if name != "F9":
+                yield {"ctx": ctx, "value": value, "clazz": "Root", "desc": desc, "_uni": u.modname, "feat": feat, "frag": name}
+    for k in range(n_cases(tier, 120, 800)):
+        # half of the universes use every feature (hypotheses of F8), the others are drawn for one of the
+        # smaller fragments, whose `ctxOK` / `valOK` are evaluated on them
+        frag, feat = ("F9", dict(W.FEAT)) if k % 2 == 0 else W.pick_feat(rng)
+        u, desc, ctx = new_universe(rng, W.WIDE_FEATURES if k % 2 == 0 else W.features_for(rng, feat))
         for _ in range(5):
             try:
                 obj = G.gen_instance(rng, u, "Root")
@@ -399,7 +463,7 @@ def gen_wide(rng, tier):
                 val = W.normal_generic(val)
             if rng.random() < 0.3:
                 val = W.spoil(rng, val)
-            yield {"ctx": ctx, "value": val, "clazz": "Root", "desc": desc, "_uni": u.modname, "feat": W.FEAT,
+            yield {"ctx": ctx, "value": val, "clazz": "Root", "desc": desc, "_uni": u.modname, "feat": feat, "frag": frag,
                    "ignore_default_attributes": rng.random() < 0.3}
 
 
@@ -409,23 +473,30 @@ def _ns_agree_wide(ctx):
 
 def impl_valFN(a):
     """`ctxOK` / `valOK` of Bind/FN.lean against the independent description of the excluded regions"""
-    return {"ok": {"ctx": W.ctx_expected(a["ctx"], _ns_agree_wide), "val": not W.regions(a["desc"], a["value"], a["ctx"])}}
+    feat = a.get("feat", W.FEAT)
+    return {"ok": {"ctx": W.ctx_expected(a["ctx"], _ns_agree_wide, feat),
+                   "val": not W.regions(a["desc"], a["value"], a["ctx"], inherit=bool(feat.get("inherit")))}}
 
 
 CORRS.append(
     Corr("c01.valFN", gen_wide, impl_valFN,
-         classify=lambda a, o: json.dumps(o.get("ok"), sort_keys=True) + (" +generic" if '"any"' in json.dumps(a["value"]) else ""),
-         describe="hypotheses ctxOK/valOK of bind_generate_F2..F8 on exported real universes and instances vs the oracle's "
+         classify=lambda a, o: a.get("frag", "F9") + " " + json.dumps(o.get("ok"), sort_keys=True)
+         + (" +generic" if '"any"' in json.dumps(a["value"]) else ""),
+         describe="hypotheses ctxOK/valOK of bind_generate_F2..F9 on exported real universes and instances vs the oracle's "
                   "description of the excluded regions")
 )
 
 
 def covered_wide(a, msg):
     if not W.ctx_expected(a["ctx"], _ns_agree_wide):
+        if as_unchanged_code(a) is False:
+            return None
         return "out-of-claim: text var with child elements / token-list or wrapped var inside a sequence group (excluded universes)"
     r = W.regions(a["desc"], a["value"], a["ctx"])
     if r and all(x == "C01-attributes-value-prefix-rewritten" for x in r) and not _prefix_bound(a):
         return None  # `prefix:rest` whose prefix is not bound where the attribute stands is left alone: no excuse
+    if r and as_unchanged_code(a) is False:
+        return None  # inside a listed region, but not the behaviour of the unchanged code: report it
     return r[0] if r else None
 
 
@@ -556,12 +627,12 @@ LEVEL_TEXT = (
     "Partial. generate -> abstract writer -> parseRoot is the identity, with no converter warning, for every parser config, both "
     "settings of ignore_default_attributes and every Unicode Env: bind_generate_F1 / bind_generate_anyNamespaces (Props/C01.lean: "
     "attributes, primitive- and model-typed elements optional/required/list, a text var, every combination of class and field "
-    "namespaces) and bind_generate_F2..F8 / bind_generate_FN (Props/C01Wide.lean: + nillable vars and classes, token lists, wrapper "
+    "namespaces) and bind_generate_F2..F9 / bind_generate_FN (Props/C01Wide.lean: + nillable vars and classes, token lists, wrapper "
     "lists, sequence groups, one Attributes map per class, init=False fields, instances of proper subclasses with xsi:type resolved "
-    "through the prefix map, one list wildcard per class holding generic elements in the parser's normal form), under decidable hypotheses ctxOK (universe) and valOK/valOKI (instance) that the driver evaluates on "
+    "through the prefix map, one wildcard per class (a list, or a single generic element) holding generic elements in the parser's normal form, element vars whose type is a union of str/int/bool), under decidable hypotheses ctxOK (universe) and valOK/valOKI (instance) that the driver evaluates on "
     "exported real universes; each remaining value-level exclusion that is a defect has a machine-checked witness replayed on the "
-    "real code, the eight defects repaired by repo-patches c01g-01..08 have *_repaired theorems. Outside these fragments (single "
-    "wildcards, tails of generic elements, mixed content, anyType, compound fields, unions, QName-typed and non str/int/bool values, DerivedElements, a text var next to "
+    "real code, the eight defects repaired by repo-patches c01g-01..08 have *_repaired theorems. Outside these fragments ("
+    "tails of generic elements, mixed wildcards, anyType, compound fields, unions with classes or in attributes, QName-typed and non str/int/bool values, DerivedElements, a text var next to "
     "child elements) the executable model is compared with the real generator, parser and the four writer x handler combinations, "
     "but no round-trip theorem is claimed yet."
 )
